@@ -180,7 +180,7 @@ impl Kind {
 // ----------------------------------------------------------------------
 // Dynamic encoder
 
-pub trait DynEnc {
+pub trait DynEnc: Send {
     fn add(&mut self, shard: &[u8]) -> Result<(), Error>;
     /// Runs encode; on Ok calls `f` with the result (still borrowed from the encoder), then drops it.
     fn encode_with(&mut self, f: &mut dyn FnMut(&EncoderResult)) -> Result<(), Error>;
@@ -190,7 +190,7 @@ pub trait DynEnc {
 
 struct RateEnc<E: Engine, T: RateEncoder<E>>(T, PhantomData<E>);
 
-impl<E: Engine, T: RateEncoder<E>> DynEnc for RateEnc<E, T> {
+impl<E: Engine + Send, T: RateEncoder<E> + Send> DynEnc for RateEnc<E, T> {
     fn add(&mut self, shard: &[u8]) -> Result<(), Error> {
         self.0.add_original_shard(shard)
     }
@@ -259,7 +259,7 @@ pub fn make_enc(
 // ----------------------------------------------------------------------
 // Dynamic decoder
 
-pub trait DynDec {
+pub trait DynDec: Send {
     fn add_original(&mut self, index: usize, shard: &[u8]) -> Result<(), Error>;
     fn add_recovery(&mut self, index: usize, shard: &[u8]) -> Result<(), Error>;
     fn decode_with(&mut self, f: &mut dyn FnMut(&DecoderResult)) -> Result<(), Error>;
@@ -269,7 +269,7 @@ pub trait DynDec {
 
 struct RateDec<E: Engine, T: RateDecoder<E>>(T, PhantomData<E>);
 
-impl<E: Engine, T: RateDecoder<E>> DynDec for RateDec<E, T> {
+impl<E: Engine + Send, T: RateDecoder<E> + Send> DynDec for RateDec<E, T> {
     fn add_original(&mut self, index: usize, shard: &[u8]) -> Result<(), Error> {
         self.0.add_original_shard(index, shard)
     }
